@@ -959,6 +959,12 @@ package hashgraph
 //@   call SetFame assert[majority-value] __arg(1) == v && v == (yays >= nays) && t == __ite(yays >= nays, yays, nays) && yays + nays == len(ssWitnesses)
 //@   call SetFame assert[tally]          yays == __countseq(ssWitnesses, len(ssWitnesses), func(w string) bool { return __in(w, votes) && __in(x, votes[w]) && votes[w][x] })
 //@   call SetFame assert[voters]         jPrevPeerSet == G_pset(h.Store)[j-1] && (forall k int :: 0 <= k && k < len(ssWitnesses) ==> SSV(h, y, ssWitnesses[k], PSHexOf(jPrevPeerSet)) && DecidedOrWit(jPrevRoundInfo, ssWitnesses[k]))
+//@   call setVote#1 assert[first-vote]      diff == 1 && __arg(1) == y && __arg(2) == x && __argT[bool](3) == AncV(h, y, x)
+//@   call setVote#2 assert[deciding-vote]   __arg(1) == y && __arg(2) == x && __argT[bool](3) == v
+//@   call setVote#3 assert[majority-vote]   __arg(1) == y && __arg(2) == x && __argT[bool](3) == v && __mod(diff, 4) != 0
+//@   call setVote#4 assert[coin-supermajority] __arg(1) == y && __arg(2) == x && __argT[bool](3) == v && 3*t > 2*len(jPeerSet.ByPubKey)
+//@   call setVote#5 assert[coin-flip]       __arg(1) == y && __arg(2) == x && __called("middleBit") && __argT[bool](3) == __lastretT[bool]("middleBit", 0) && !(3*t > 2*len(jPeerSet.ByPubKey))
+//@   call middleBit assert[coin-of-voter]   __arg(0) == y
 //@   loop 1 invariant[memo] h.MemoOK() && h.PendingRounds == old(h.PendingRounds)
 //@   loop 2 invariant[memo] h.MemoOK()
 //@   loop 3 invariant[memo] h.MemoOK()
